@@ -5,7 +5,7 @@ F = "mitxgraders/helpers/munkres.py::"
 
 
 @spec
-def is_square(M, n):
+def is_square_grid(M, n):
     # an n x n matrix as a list of n distinct row lists of length n (none of them the matrix itself)
     return (is_list(M) and allocated(M) and len(M) == n
             and forall(range(n), lambda i: is_list(M[i]) and allocated(M[i]) and len(M[i]) == n and not same(M[i], M))
@@ -15,7 +15,7 @@ def is_square(M, n):
 @spec
 def marks_ok(self):
     # marked: n x n matrix over {0, 1, 2} (0 plain, 1 starred, 2 primed)
-    return (has_attr(self, 'marked', 'n') and is_int(self.n) and self.n >= 0 and is_square(self.marked, self.n)
+    return (has_attr(self, 'marked', 'n') and is_int(self.n) and self.n >= 0 and is_square_grid(self.marked, self.n)
             and forall(range(self.n), lambda i: forall(range(self.n), lambda j: is_int(self.marked[i][j]))))
 
 
@@ -89,7 +89,7 @@ contract(F + "Munkres.__erase_primes", props=["C06"],
 @spec
 def cost_ok(self):
     # the working matrix: n x n numbers (no DISALLOWED entries: the graders never produce them), covers of length n, all separate objects
-    return (has_attr(self, 'C', 'n') and is_int(self.n) and self.n >= 0 and is_square(self.C, self.n) and covers_ok(self)
+    return (has_attr(self, 'C', 'n') and is_int(self.n) and self.n >= 0 and is_square_grid(self.C, self.n) and covers_ok(self)
             and forall(range(self.n), lambda i: forall(range(self.n), lambda j: is_number(self.C[i][j])))
             and forall(range(self.n), lambda i: is_bool(self.row_covered[i]) and is_bool(self.col_covered[i]))
             and not same(self.C, self) and not same(self.C, self.row_covered) and not same(self.C, self.col_covered)
